@@ -20,6 +20,7 @@ func init() {
 			"W2 what is reported is what is removed: the slice appended to a report's Paths is the slice the removal loop ranges over (or the content of the temp directory removed for the same metadata object), removal happens between the append and the report write, inside a critical section for the kill functions; removal errors of the per-file kill are recorded; a cache entry whose size was added to a report leaves fileParamMap in the same call (directly or via a list whose every element is deleted), so a later vdrKillSome cannot count it again, " +
 			"W3 temp directories go with their phase: each clean*Temp is called only in the states that make it safe, sets its done-flag together with the removal and writes the partial report. " +
 			"W4 no path that wrote the final VDR report returns done == false. " +
+			"W5 every destructive callee of the per-fork sweep is preceded by the symlinked-ancestor check; W6 a map stored into Fork.filePostNodes in a loop over forks is created in that loop; W7 the symlink check reaches every ancestor (recursion on the parent, or a loop whose stat depends on the loop's node). " +
 			"NOT decided: equality of Count/Size with the bytes removed, completeness (no volatile file survives), merge arithmetic.",
 		Assumptions: commonAssumptions,
 	}
@@ -327,6 +328,7 @@ func runC14(c *an.Ctx) {
 	ruleW4(c)
 	ruleW5(c)
 	ruleW6(c)
+	ruleW7(c)
 	// ---------------- W3 ----------------
 	ruleW3(c)
 }
